@@ -720,6 +720,10 @@ pub fn gen_history(r: &mut Rng, tier: Tier, mode: Mode) -> Case {
     };
     // most histories are short
     let steps = if r.chance(2, 3) { r.range(1, 10) } else { r.range(1, max_steps) };
+    // a few histories grow unusually large diagrams
+    let huge = r.chance(1, if tier == Tier::Thorough { 25 } else { 120 });
+    let node_cap = if huge { 48 } else { 12 };
+    let steps = if huge { r.range(30, 90) } else { steps };
     let mut m = Model::default();
     let mut ops = vec![];
     let pick_nodes = |r: &mut Rng, n: usize, max: usize| -> Vec<usize> {
@@ -733,7 +737,7 @@ pub fn gen_history(r: &mut Rng, tier: Tier, mode: Mode) -> Case {
     for _ in 0..steps {
         let n = m.nodes.len();
         let ne = m.edges.len();
-        let too_big = n >= 12;
+        let too_big = n >= node_cap;
         let w = match mode {
             // weights: node, edge, operation, add src/tgt, unify, iface, delnodes, deledges, map, with, quotient, restart, fork
             Mode::Quotient => [3, 2, 3, 1, 6, 2, 1, 1, 1, 1, 6, 1, 1],
